@@ -52,6 +52,48 @@ def rule_ideal(ck, rid="C03.R1"):
                    bad="the ideal law is min(pilot power, max power, fill rate)", sink="ideal-is-min")
 
 
+def rule_exact_bounds(ck, rid="C03.R12"):
+    """the bounds the clamps apply are the right quantities, as identities between source expressions (term rewriting): the operand that
+    depends on (capacity, charge, period) is the power that exactly fills the battery, (capacity - charge) / (period / 60); the operand
+    that depends on (pilot, voltage) is pilot x voltage / 1000; the declining maximum of the stepwise model is
+    (1 - soc) / (1 - transition soc) x max power - a clamp on the wrong expression bounds nothing."""
+    from .. import cas
+    from ..bounds import _args, MIN_NAMES
+    repo = ck.repo
+    S = cas.sp()
+    T, V, C, q0, I, M, ts = S.symbols("T V C q0 I M ts", positive=True)
+    n_ops = 0
+    for q in ("Battery.charge", "Linear2StageBattery._charge_stepwise"):
+        f = repo.fn(q)
+        fl = flow_of(f)
+        pilot, voltage, period = f.params[1:4]
+        env = {period: T, voltage: V, pilot: I, "self._capacity": C, "self._current_charge": q0, "self._soc": q0 / C, "self.soc": q0 / C,
+               "self._max_power": M, "self._transition_soc": ts}
+        want = {FILL: ((C - q0) * 60 / T, "(capacity - charge) / (period / 60)"),
+                pilot_power(f): (I * V / 1000, "pilot x voltage / 1000"),
+                frozenset({"self._soc", "self._transition_soc", "self._max_power"}): ((1 - q0 / C) / (1 - ts) * M, "(1 - soc) / (1 - transition soc) x max power")}
+        seen = set()
+        for n in fl.cfg.nodes:
+            for e in fl.cfg.node_exprs(n):
+                for c in [x for x in [e] + list(__import__("sa.core", fromlist=["walk_local"]).walk_local(e)) if isinstance(x, ast.Call) and call_name(x) in MIN_NAMES]:
+                    for a in _args(fl.expand(c, n)):
+                        sg = frozenset(sig(a))
+                        if sg not in want or "normal(" in canon(a) or canon(a) in seen:
+                            continue
+                        seen.add(canon(a))
+                        try:
+                            t_ = cas.to_sympy(a, env)
+                        except AnalysisError:
+                            continue
+                        z = cas.is_zero(t_ - want[sg][0])
+                        n_ops += 1
+                        if z is None:
+                            raise AnalysisError(f"{q}: identity for the bound `{src(a, 50)}` not decided by the algebra system")
+                        ck.require(z, rid, f, c, ok=f"bound = {want[sg][1]}", bad=f"the clamp operand `{src(a, 70)}` is not {want[sg][1]}: the limit it enforces is a different quantity",
+                                   sink=f"{q}:bound:{want[sg][1][:12]}")
+    ck.floor(rid, n_ops, 4, "clamp operands of the ideal and the stepwise routine")
+
+
 def rule_stepwise(ck, rid="C03.R2"):
     repo = ck.repo
     f = repo.fn("Linear2StageBattery._charge_stepwise")
@@ -307,6 +349,7 @@ def rule_init_guards(ck, rid="C03.R5"):
 def run(ck):
     ck.attempt(rule_ideal)
     ck.attempt(rule_stepwise)
+    ck.attempt(rule_exact_bounds)
     ck.attempt(rule_taint)
     ck.attempt(rule_pilot_cap)
     ck.attempt(rule_init_guards)
